@@ -1,6 +1,7 @@
 (* C02 - Conditions branch on the value of the written boolean expression. *)
-From Coq Require Import List ZArith Bool.
-From Pory Require Import Lexer Ast Parser Emitter Sem2 Tr SpecLemmas Tables TablesOK.
+From Coq Require Import List String ZArith Bool Lia.
+Open Scope string_scope. Open Scope list_scope.
+From Pory Require Import Lexer Ast Emitter Sem2 Tr SpecLemmas Tables TablesOK Parser BexpParse.
 Import ListNotations.
 
 (* emitter side (T3): a chain of one-test chunks built for an expression reaches the success target iff the
@@ -32,3 +33,91 @@ Theorem negation_is_the_go_table :
   (forall o, tok_of_bop (negate_bop o) = lookup_neg go_negation (tok_of_bop o)).
 Proof. split; [exact negation_agree_cmp|exact negation_agree_bop]. Qed.
 Print Assumptions negation_is_the_go_table.
+
+(* ---------- parser side (T1): the recursive-descent parser builds the tree of the usual reading ---------- *)
+(* Surface grammar (BexpParse.v):  expr ::= atom tail;  tail ::= empty | && atom tail | || expr;  atom ::= LEAF | ( expr ) | !( expr ).
+   For every such expression (any number of leaves, any nesting, redundant parentheses included) the parser, started after
+   the opening parenthesis of a condition, consumes exactly its tokens and returns a tree whose evaluation - AutoVar commands run,
+   final state, value, short-circuit points - is the left-to-right short-circuit evaluation of the written expression,
+   '!( )' having been pushed to the leaves. *)
+Theorem condition_parses_to_its_meaning :
+  forall autovars switches env_errors parse_format consts script F0
+         (St : Type) (exec : cmd -> St -> stepres St) (flag_set trainer_beaten : text -> St -> bool)
+         (cmp_var cmp_var_value : text -> text -> St -> comparison) e lp rest f,
+  wf_expr autovars switches env_errors parse_format consts script F0 e -> lok_expr e ->
+  (need_expr F0 e <= f)%nat -> stop rest ->
+  exists T imp', bool_expr autovars switches env_errors parse_format consts f false false script (lp :: print_expr e ++ rest) = Parser.Ok (T, imp', rest) /\
+    imp_eq imp' (imp_expr e) /\
+    forall s, eval_bexp St exec flag_set trainer_beaten cmp_var cmp_var_value T s =
+              sev_expr St exec flag_set trainer_beaten cmp_var cmp_var_value e s.
+Proof. exact BexpParse.condition_parses_to_its_meaning. Qed.
+Print Assumptions condition_parses_to_its_meaning.
+
+(* without AutoVar leaves the value is: OR over the '||'-separated groups of the AND over their '&&'-separated atoms,
+   an atom being a leaf, a parenthesised expression, or the negation of one *)
+Theorem condition_value_is_precedence_reading :
+  forall autovars switches env_errors parse_format consts script F0
+         (St : Type) (exec : cmd -> St -> stepres St) (flag_set trainer_beaten : text -> St -> bool)
+         (cmp_var cmp_var_value : text -> text -> St -> comparison) e lp rest f,
+  wf_expr autovars switches env_errors parse_format consts script F0 e -> lok_expr e -> pure_expr e ->
+  (need_expr F0 e <= f)%nat -> stop rest ->
+  exists T imp', bool_expr autovars switches env_errors parse_format consts f false false script (lp :: print_expr e ++ rest) = Parser.Ok (T, imp', rest) /\
+    forall s, eval_bexp St exec flag_set trainer_beaten cmp_var cmp_var_value T s =
+              ([], s, Some (existsb (forallb (den_atom St flag_set trainer_beaten cmp_var cmp_var_value s)) (flat_expr e))).
+Proof. exact BexpParse.condition_value_is_precedence_reading. Qed.
+Print Assumptions condition_value_is_precedence_reading.
+
+(* the premises are met: the leaf parser satisfies leaf_spec on the four leaf forms without AutoVar command and without value() *)
+Theorem leaf_forms_parse :
+  forall autovars switches env_errors parse_format consts script F0, (1 <= F0)%nat ->
+  (forall k lp ops rp, kindtok k -> ttype lp = LPAREN -> operand_ok ops -> ttype rp = RPAREN ->
+     leaf_spec autovars switches env_errors parse_format consts script F0 (k :: lp :: ops ++ [rp])
+       (mkleaf consts k ops (match kind_of k with KVar => ONe | _ => OEq end) (match kind_of k with KVar => t "0" | _ => t "TRUE" end) false) imp0) /\
+  (forall nt k lp ops rp, ttype nt = NOT -> kindtok k -> ttype lp = LPAREN -> operand_ok ops -> ttype rp = RPAREN ->
+     leaf_spec autovars switches env_errors parse_format consts script F0 (nt :: k :: lp :: ops ++ [rp])
+       (mkleaf consts k ops OEq (match kind_of k with KVar => t "0" | _ => t "FALSE" end) false) imp0) /\
+  (forall k lp ops rp o v, ttype k = FLAG \/ ttype k = DEFEATED -> ttype lp = LPAREN -> operand_ok ops -> ttype rp = RPAREN ->
+     ttype o = EQ \/ ttype o = NEQ -> ttype v = TRUE \/ ttype v = FALSE ->
+     leaf_spec autovars switches env_errors parse_format consts script F0 (k :: lp :: ops ++ [rp; o; v])
+       (mkleaf consts k ops (if is EQ o then OEq else ONe) (if is TRUE v then t "TRUE" else t "FALSE") false) imp0) /\
+  (forall k lp ops rp o op vals, ttype k = VAR -> ttype lp = LPAREN -> operand_ok ops -> ttype rp = RPAREN ->
+     is_cmp_tok o = Some op -> value_ok vals ->
+     leaf_spec autovars switches env_errors parse_format consts script F0 (k :: lp :: ops ++ rp :: o :: vals)
+       (mkleaf consts k ops op (opnd consts vals) false) imp0).
+Proof.
+  intros autovars switches env_errors parse_format consts script F0 HF. split; [|split; [|split]].
+  - intros; apply leaf_bare; assumption.
+  - intros; apply leaf_not; assumption.
+  - intros; apply leaf_flagcmp; assumption.
+  - intros; apply leaf_varcmp; assumption.
+Qed.
+Print Assumptions leaf_forms_parse.
+
+(* and those leaves mean what the manual says *)
+Theorem leaf_forms_mean :
+  forall consts (St : Type) (flag_set trainer_beaten : text -> St -> bool) (cmp_var cmp_var_value : text -> text -> St -> comparison),
+  (forall k ops (eq tr : bool) s, ttype k = FLAG ->
+     leaf_holds St flag_set trainer_beaten cmp_var cmp_var_value
+       (mkleaf consts k ops (if eq then OEq else ONe) (if tr then t "TRUE" else t "FALSE") false) s =
+     Bool.eqb (flag_set (opnd consts ops) s) (Bool.eqb eq tr)) /\
+  (forall k ops (eq tr : bool) s, ttype k = DEFEATED ->
+     leaf_holds St flag_set trainer_beaten cmp_var cmp_var_value
+       (mkleaf consts k ops (if eq then OEq else ONe) (if tr then t "TRUE" else t "FALSE") false) s =
+     Bool.eqb (trainer_beaten (opnd consts ops) s) (Bool.eqb eq tr)) /\
+  (forall k ops o v s, ttype k = VAR ->
+     leaf_holds St flag_set trainer_beaten cmp_var cmp_var_value (mkleaf consts k ops o v false) s =
+     cmp_holds o (cmp_var (opnd consts ops) v s)).
+Proof.
+  intros. split; [|split].
+  - exact (flag_leaf_meaning consts St flag_set trainer_beaten cmp_var cmp_var_value).
+  - exact (defeated_leaf_meaning consts St flag_set trainer_beaten cmp_var cmp_var_value).
+  - exact (var_leaf_meaning consts St flag_set trainer_beaten cmp_var cmp_var_value).
+Qed.
+Print Assumptions leaf_forms_mean.
+
+(* non-vacuity: flag(A) && !(var(B) == 1 || !defeated(T)) || flag(C) meets every premise above *)
+Theorem premises_hold_for_an_example :
+  forall autovars switches env_errors parse_format consts script,
+  wf_expr autovars switches env_errors parse_format consts script 1 (e_ex consts) /\ lok_expr (e_ex consts) /\ pure_expr (e_ex consts).
+Proof. exact BexpParse.premises_hold. Qed.
+Print Assumptions premises_hold_for_an_example.
